@@ -24,8 +24,20 @@ type loc struct {
 }
 
 func TestIdempotentExactlyOnceInOrder(t *testing.T) {
+	exactlyOnceInOrder(t, wl.ProdFocus{IdemOnly: true, NoPurge: true, FatalCodesRare: true})
+}
+
+// TestIdempotentPipelineStall fills one partition's produce pipeline during a one-way network
+// stall (requests handled, no responses) that ends with every connection dying: every request
+// the client had in flight was appended and is resent. Exactly-once then rests on the client
+// never having more unacknowledged batches per partition in flight than the broker remembers.
+func TestIdempotentPipelineStall(t *testing.T) {
+	exactlyOnceInOrder(t, wl.ProdFocus{IdemOnly: true, NoPurge: true, FatalCodesRare: true, Pipeline: true})
+}
+
+func exactlyOnceInOrder(t *testing.T, focus wl.ProdFocus) {
 	rapid.Check(t, func(rt *rapid.T) {
-		plan := wl.GenProdPlan(rt, wl.ProdFocus{IdemOnly: true, NoPurge: true, FatalCodesRare: true})
+		plan := wl.GenProdPlan(rt, focus)
 		plan.Final = "flushclose"
 		var o *wl.ProdObs
 		var dropsAfterAppend, retriable int
